@@ -1994,6 +1994,12 @@ func strContains(s, sub string) bool { return strings.Contains(s, sub) }
 //@   assigns  as.SegmentTemplate.MultipleSegmentBaseType, as.SegmentTemplate.Media, as.SegmentTemplate.SegmentTimeline.S
 //@   allocates
 
+// changeTimelineTimescale (subtitle timeline in ms from the video timeline): only the first S of a
+// timeline needs to carry @t - it is dereferenced only where present.
+//@ func changeTimelineTimescale
+//@   wiring
+//@   keep nil: *s.T
+
 // adjustAdaptationSetForSegmentNumber: the plain $Number$ template has no timeline, the configured
 // start number, and - when the VoD MPD gives no duration - the average segment duration of the first
 // representation in its media timescale (for constant-duration assets THE segment duration: see
